@@ -20,7 +20,7 @@ RULE = (
     "non-trivial = >=2 plates of unequal sizes or >=4 thetas"
 )
 ASSUMPTIONS = ["means bounded by a few hundred (up to 2**20 when they lie on a binary grid on which every difference is exact) so squares stay finite", "scalar reference uses math.fsum and a stable log-sum-exp"]
-REQUIRED = {"scores_by_a_long_lived_scorer_object": {"quick": 300, "thorough": 5000}, "work_array_scale_runs": {"quick": 1, "thorough": 1}, "configs_with_more_than_5000_triples": {"quick": 10, "thorough": 200}, "cli_end_to_end_runs": {"quick": 5, "thorough": 50}, "scorer_runs_on_overlapping_views": {"quick": 10, "thorough": 150}, "production_size_plates": {"quick": 40, "thorough": 800}, "plate_scores_vs_reference": {"quick": 10000, "thorough": 200000}, "metamorphic_checks": {"quick": 10000, "thorough": 200000}, "scorer_entry_runs": {"quick": 800, "thorough": 15000}, "all_zero_distance_cases": {"quick": 10, "thorough": 200}}
+REQUIRED = {"kernel_calls_repeated_on_nan_padded_arrays": {"quick": 100, "thorough": 1500}, "scores_by_a_long_lived_scorer_object": {"quick": 300, "thorough": 5000}, "work_array_scale_runs": {"quick": 1, "thorough": 1}, "configs_with_more_than_5000_triples": {"quick": 10, "thorough": 200}, "cli_end_to_end_runs": {"quick": 5, "thorough": 50}, "scorer_runs_on_overlapping_views": {"quick": 10, "thorough": 150}, "production_size_plates": {"quick": 40, "thorough": 800}, "plate_scores_vs_reference": {"quick": 10000, "thorough": 200000}, "metamorphic_checks": {"quick": 10000, "thorough": 200000}, "scorer_entry_runs": {"quick": 800, "thorough": 15000}, "all_zero_distance_cases": {"quick": 10, "thorough": 200}}
 N_CFG = {"quick": 960, "thorough": 16000}
 TOL = 1e-9
 
@@ -264,8 +264,24 @@ def run_shard(rec, tier, seed, shard, nshards):
         for p in range(P):
             pm[p, :, : sizes[p]] = means[p]
             pv[p, :, : sizes[p]] = hetero[p]
+        h_in = (kit.array_hash(pm), kit.array_hash(pv), kit.array_hash(d))
         vec = run("vectorized", lambda: G.dbal_fast_gauss_scoring_vectorized(pm, pv, d, grng(), max_combos=budget))
         versus_ref("vectorized", vec, ref_het)
+        # the caller keeps its (NaN-padded) tensors and asks again - each plate's score depends on that plate alone, not
+        # on what an earlier call left behind - and may hand them over read-only, strided or column-major
+        rec.check((kit.array_hash(pm), kit.array_hash(pv), kit.array_hash(d)) == h_in, "C05/vectorized/inputs-changed", "the kernel changed the prediction / variance / distance arrays it was given (NaN padding of unequal plates included)", w)
+        vec2 = run("vectorized", lambda: G.dbal_fast_gauss_scoring_vectorized(pm, pv, d, grng(), max_combos=budget))
+        versus_ref("vectorized-second-call-on-the-same-arrays", vec2, ref_het)
+        pm_d, k1 = kit.dress(rng, pm)
+        pv_d, k2 = kit.dress(rng, pv)
+        d_d, k3 = kit.dress(rng, d)
+        rec.count("kernel_calls_on_arrays_in_another_container")
+        if len(set(sizes)) > 1:
+            rec.count("kernel_calls_repeated_on_nan_padded_arrays")
+        w["containers"] = [k1, k2, k3]
+        vec3 = run("vectorized", lambda: G.dbal_fast_gauss_scoring_vectorized(pm_d, pv_d, d_d, grng(), max_combos=budget))
+        versus_ref("vectorized-%s-inputs" % (k2 if k2 != "plain" else k1), vec3, ref_het)
+        w.pop("containers", None)
 
         # ---------------- metamorphic monitors (heteroscedastic inputs)
         if het is not None:
